@@ -40,8 +40,9 @@ class ScriptedBase:
     LAGS = 0
     LEADS = 0
 
-    def prepare(self, scripts=None, pre_exc=False, post_exc=False, default=('moved', 0)):
+    def prepare(self, scripts=None, pre_exc=False, post_exc=False, default=('moved', 0), hooks_write=False):
         d = self.__dict__
+        d['_sc_hooks_write'] = hooks_write
         d['_sc_scripts'] = {int(k): list(v) for k, v in (scripts or {}).items()}
         d['_sc_n'] = {}
         d['_sc_log'] = []
@@ -55,11 +56,15 @@ class ScriptedBase:
 
     def solve_t_before(self, t, **kw):
         self.__dict__['_sc_log'].append(('pre', self._pos(t), kw.get('iteration')))
+        if self.__dict__.get('_sc_hooks_write'):
+            self._C[t] += 1000.0  # a pre-solution calculation on a non-check endogenous variable
         if self.__dict__['_sc_pre_exc']:
             raise Boom('pre')
 
     def solve_t_after(self, t, **kw):
         self.__dict__['_sc_log'].append(('post', self._pos(t), kw.get('iteration')))
+        if self.__dict__.get('_sc_hooks_write'):
+            self._C[t] += 5000.0  # a post-solution calculation
         if self.__dict__['_sc_post_exc']:
             raise Boom('post')
 
@@ -130,9 +135,9 @@ class Scripted(ScriptedBase, fsic.BaseModel):
     pass
 
 
-def make_scripted(span, scripts=None, pre_exc=False, post_exc=False, cls=Scripted, **init):
+def make_scripted(span, scripts=None, pre_exc=False, post_exc=False, cls=Scripted, hooks_write=False, **init):
     m = cls(span, **init)
-    m.prepare(scripts, pre_exc, post_exc)
+    m.prepare(scripts, pre_exc, post_exc, hooks_write=hooks_write)
     return m
 
 
